@@ -341,10 +341,16 @@ def check_C15(world, hist, pred):
     shown_order = []
     if logs:
         shown_order = [e["id"] for e in logs[0] if e["cb"] == "scenario"]
+    n_stdout = sum(1 for _n, o in cfg["formatters"] if not o)
     for name, outp in cfg["formatters"]:
         text = None
         if outp:
             text = hist["artifacts"].get(outp)
+        elif n_stdout == 1 and not hist["markers"] and name == "plain":
+            # the only formatter on stdout, and no user output anywhere in this world: what reached
+            # the terminal IS its report (plus the summary, which has no step lines)
+            text = "".join(c[2] for c in hist["tty_out"])
+            outp = "<stdout>"
         if name in ("json", "json.pretty"):
             if outp is None:
                 continue
